@@ -173,12 +173,14 @@ def jobs_all(quick, rng):
         a, b = min(t['thr']), max(t['thr'])
         span = 600 if t['inc4'] else 100
         for form in ('text', 'short'):
-            jobs.append(('sportshall', key, None, form, marks_for(a - span, b + span, cap * 4, rng, t['thr'][::8])))
+            # a threshold table: a one-centi slip of one threshold changes one mark, so the text form visits every mark
+            jobs.append(('sportshall', key, None, form, marks_for(a - span, b + span, 10 ** 9 if form == 'text' else cap * 4, rng, t['thr'][::8])))
     jobs.append(('sportshall', 'XYZ', None, 'text', [100]))
     for key, t in sorted(J['bulgarian'].items()):
         forms = ['num', 'hms', 'text', 'int'] if t['timed'] else ['num', 'int']
         for form in forms:
-            jobs.append(('bulgarian', key, None, form, marks_for(t['lo'] - 120, t['hi'] + 120, cap * 4, rng, [t['lo'], t['hi']])))
+            # a per-centi lookup table: every cell is its own case, so the number form visits every mark in both tiers
+            jobs.append(('bulgarian', key, None, form, marks_for(t['lo'] - 120, t['hi'] + 120, 10 ** 9 if form == 'num' else cap * 4, rng, [t['lo'], t['hi']])))
     return jobs
 
 
